@@ -383,7 +383,7 @@ def selftest(tier):
 
 
 def meta(tier):
-    return {
+    m = {
         "functions": [ForestRuleExtractor.__init__, ForestRuleExtractor._minimize, ForestRuleExtractor._minimize_key,
                       ForestRuleExtractor._is_productive, ForestRuleExtractor._sorted_stable_rules, ForestRuleExtractor.check,
                       TableMethod.pumping_subuniverse, TableMethod.add_rule_key],
@@ -397,3 +397,5 @@ def meta(tier):
         "stubs": ["stub rule database carrying a real TableMethod"],
         "assumptions": ["reference least fixed point (vlib/oracles.lfp, validated in C03's selftest)"],
     }
+    m["bounds"] = str(m.get("bounds", "")) + " || end-to-end groups of this run: " + e2e.describe_groups(groups(tier))
+    return m
